@@ -3,7 +3,8 @@
 From Coq Require Import List String Bool ZArith Permutation.
 From Helm Require Import Values.Tree Common.Assoc
   Misc.Panics Misc.PanicsStorage Misc.PanicsStorageProofs
-  Misc.PanicsDeps Misc.PanicsDepsProofs Misc.PanicsIndex Misc.PanicsIndexProofs.
+  Misc.PanicsDeps Misc.PanicsDepsProofs Misc.PanicsIndex Misc.PanicsIndexProofs
+  Misc.PanicsSort Misc.PanicsSortProofs Misc.PanicsSchema Misc.PanicsSchemaProofs.
 Import ListNotations.
 Local Open Scope string_scope.
 
@@ -201,3 +202,48 @@ Theorem C20_index_merge_refuted :
     is_panic (merge (fun _ => true) unit (fun _ => Some tt) (fun _ _ => true) false i f) = true.
 Proof. exact merge_unguarded_refuted. Qed.
 Print Assumptions C20_index_merge_refuted.
+
+(* ---- C20_sort_manifests: SortManifests over every head shape ---- *)
+
+(* documents without metadata, with null / empty annotations, non-numeric weights (any Atoi),
+   unknown events (any event table), empty kinds, unparsable documents; any kind-sort functions *)
+Theorem C20_sort_manifests :
+  forall (atoi : string -> option Z) (norm_item : string -> string) (event_of : string -> option string)
+         (kind_sort_m : list manifest -> list manifest) (kind_sort_h : list hook -> list hook)
+         (fs : list mfile),
+    no_panic (sort_manifests atoi norm_item event_of kind_sort_m kind_sort_h true fs).
+Proof. exact sort_manifests_no_panic. Qed.
+Print Assumptions C20_sort_manifests.
+
+(* an unparsable document that is reached makes the call an error (not a partial result) *)
+Theorem C20_sort_manifests_parse_error :
+  forall (atoi : string -> option Z) (norm_item : string -> string) (event_of : string -> option string)
+         (path : string) (ds1 ds2 : list doc),
+    (forall d, In d ds1 -> d <> DBad) ->
+    sort_docs atoi norm_item event_of true path (ds1 ++ DBad :: ds2) = Err.
+Proof. exact sort_docs_bad. Qed.
+Print Assumptions C20_sort_manifests_parse_error.
+
+(* the guard entry.Metadata != nil of hasAnyAnnotation is what the theorem rests on *)
+Theorem C20_sort_manifests_unguarded_refuted :
+  exists fs : list mfile,
+    is_panic (sort_manifests (fun _ => None) (fun s => s) (fun e => Some e) (fun l => l) (fun l => l) false fs) = true.
+Proof. exact (ex_intro _ _ sort_unguarded_panics). Qed.
+Print Assumptions C20_sort_manifests_unguarded_refuted.
+
+(* ---- C20_schema_walk: ValidateAgainstSchema over any chart tree and any value tree ---- *)
+
+(* a subchart's slot absent, null, a scalar, a list or a table; the JSON-schema library may
+   return anything, including a panic (recovered inside ValidateAgainstSingleSchema) *)
+Theorem C20_schema_walk :
+  forall (S : Type) (lib_validate : S -> vmap -> res bool) (c : schart S) (values : vmap),
+    no_panic (validate_schema S lib_validate true c values).
+Proof. exact validate_schema_no_panic. Qed.
+Print Assumptions C20_schema_walk.
+
+(* found by this check: the walk before a1cf667 asserts the slot's type unchecked *)
+Theorem C20_schema_walk_refuted :
+  exists (c : schart unit) (values : vmap),
+    is_panic (validate_schema unit (fun _ _ => Ok true) false c values) = true.
+Proof. exact (ex_intro _ _ (ex_intro _ _ validate_schema_unchecked_panics)). Qed.
+Print Assumptions C20_schema_walk_refuted.
